@@ -70,6 +70,9 @@ func signCase(t *rapid.T, maxMsg int) (tuple, []string) {
 	if err != nil {
 		t.Fatalf("Sm2Sign error: %v", err)
 	}
+	if w := sm2x.Intact(priv, key); w != "" {
+		t.Fatalf("Sm2Sign modified the caller's key object (%s)", w)
+	}
 	k := sm2x.NonceFromBlock(block)
 	e, _ := cv.E(key.Pub, orDefault(uid.UID), msg)
 	wr, ws, ok := cv.SignE(key.D, e, k)
